@@ -23,8 +23,8 @@ func init() {
 	Register(&Rule{
 		ID:    "R-KINDTABLE",
 		Doc:   "forward dataflow of the possible reflect.Kind values along the branch edges of every function that tests t.Kind(); each function value (closure, method expression, global proto codec) selected on a path where the kind is a scalar is summarised by the types it loads/stores through its unsafe.Pointer parameter (following static callees one level) or the reflect.Value accessors it calls; size and class (bool/int/uint/float/string) must match the kind — integer signedness may differ only when the loaded value is used solely in comparisons with zero",
-		Props: []string{"C01", "C02", "C03", "C04", "C12"},
-		Min:   map[string]int{"C01": 25, "C02": 14, "C03": 9, "C04": 5, "C12": 9},
+		Props: []string{"C01", "C02", "C03", "C04", "C07", "C12"},
+		Min:   map[string]int{"C01": 25, "C02": 14, "C03": 9, "C04": 5, "C07": 1, "C12": 9},
 		Run:   runKindTable,
 	})
 	Register(&Rule{
@@ -169,7 +169,7 @@ func kindFlow(fn *ssa.Function, kv ssa.Value) map[*ssa.BasicBlock]kset {
 // access summary of a selected function
 type accessSummary struct {
 	types    map[string]kindClass // rendered type -> class, for scalar accesses through the data pointer
-	zeroOnly map[string]bool      // every use of the loaded value is a comparison with zero
+	zeroOnly map[string]bool      // no use of the loaded value depends on its signedness
 	reflects map[string]bool      // reflect.Value accessors called (Int, SetInt, Float, ...)
 }
 
@@ -209,19 +209,22 @@ func summariseAccess(c *core.Ctx, fn *ssa.Function, depth int, out *accessSummar
 							continue
 						}
 						out.types[name] = kc
+						// signedness matters only where the value is widened, ordered, divided
+						// or shifted right; moving the same-width bits around does not care
 						zo := true
 						for _, use := range *r.Referrers() {
-							ok := false
-							if bo, isB := use.(*ssa.BinOp); isB && (bo.Op == token.EQL || bo.Op == token.NEQ) {
-								if k, isK := constInt(bo.X); isK && k == 0 {
-									ok = true
+							switch u := use.(type) {
+							case *ssa.Convert:
+								from, ok1 := basicClass(r.Type())
+								to, ok2 := basicClass(u.Type())
+								if ok1 && ok2 && (to.class == "float" || sizeOfClass(to) > sizeOfClass(from)) {
+									zo = false
 								}
-								if k, isK := constInt(bo.Y); isK && k == 0 {
-									ok = true
+							case *ssa.BinOp:
+								switch u.Op {
+								case token.LSS, token.GTR, token.LEQ, token.GEQ, token.QUO, token.REM, token.SHR:
+									zo = false
 								}
-							}
-							if !ok {
-								zo = false
 							}
 						}
 						if prev, had := out.zeroOnly[name]; had {
@@ -232,7 +235,9 @@ func summariseAccess(c *core.Ctx, fn *ssa.Function, depth int, out *accessSummar
 					case *ssa.Store:
 						if r.Addr == ssa.Value(x) {
 							out.types[name] = kc
-							out.zeroOnly[name] = false
+							if _, had := out.zeroOnly[name]; !had {
+								out.zeroOnly[name] = true // a same-width store moves bits, whatever their sign
+							}
 						}
 					}
 				}
@@ -262,6 +267,13 @@ func summariseAccess(c *core.Ctx, fn *ssa.Function, depth int, out *accessSummar
 			}
 		}
 	}
+}
+
+func sizeOfClass(k kindClass) int {
+	if k.size == 0 {
+		return 8
+	}
+	return k.size
 }
 
 func newSummary() *accessSummary {
@@ -406,7 +418,7 @@ func runKindTable(c *core.Ctx) []core.Obligation {
 							case tc.class == kc.class:
 							case (tc.class == "int" || tc.class == "uint") && (kc.class == "int" || kc.class == "uint"):
 								if !sum.zeroOnly[tn] {
-									problems = append(problems, fmt.Sprintf("accesses a %s as %s and uses the value beyond a comparison with zero: values with the top bit set change sign", kindNames[k], tn))
+									problems = append(problems, fmt.Sprintf("accesses a %s as %s and then widens, orders, divides or shifts the value: values with the top bit set change sign", kindNames[k], tn))
 								}
 							default:
 								problems = append(problems, fmt.Sprintf("accesses a %s as %s: the bit pattern is not the value (for floats -0.0 is zero but its bits are not)", kindNames[k], tn))
@@ -434,7 +446,98 @@ func runKindTable(c *core.Ctx) []core.Obligation {
 			}
 		}
 	}
+	kindTableBaseKind(c, b)
 	return b.out
+}
+
+// kindTableBaseKind: a scalar codec chosen by looking at baseKindOf (the kind behind any number of
+// pointers) must reach the scalar through those pointers.
+func kindTableBaseKind(c *core.Ctx, b *ob) {
+	props := []string{"C03", "C07", "C12"}
+	key := "basekind:scalar-through-pointer"
+	fn := c.Lookup("proto.structCodecOf")
+	if fn == nil {
+		b.addP(props, core.Undecided, key, "-", "proto.structCodecOf not found")
+		return
+	}
+	// kind values produced by baseKindOf
+	var kvs []ssa.Value
+	for _, ci := range callsIn(fn) {
+		if f := staticCallee(ci.Common()); f != nil && f.Name() == "baseKindOf" && ci.Value() != nil {
+			kvs = append(kvs, ci.Value())
+		}
+	}
+	var sel []ssa.Instruction
+	for _, kv := range kvs {
+		flow := kindFlow(fn, kv)
+		for _, blk := range fn.Blocks {
+			set, ok := flow[blk]
+			if !ok || set == allKinds || popcount(uint32(set)) != 1 {
+				continue
+			}
+			scalar := false
+			for k := range scalarKinds {
+				if set == 1<<uint(k) {
+					scalar = true
+				}
+			}
+			if !scalar {
+				continue
+			}
+			for _, in := range blk.Instrs {
+				st, ok := in.(*ssa.Store)
+				if !ok {
+					continue
+				}
+				if g, ok := st.Val.(*ssa.Global); ok && strings.HasSuffix(g.Name(), "Codec") {
+					sel = append(sel, st)
+				}
+			}
+		}
+	}
+	// or through a helper that maps (base kind, wire type) to a scalar codec
+	for _, ci := range callsIn(fn) {
+		f := staticCallee(ci.Common())
+		if f == nil || !c.InRepo(f) || f.Name() == "baseKindOf" || ci.Value() == nil {
+			continue
+		}
+		if !strings.HasSuffix(typeShort(ci.Value().Type()), "codec") {
+			continue
+		}
+		for _, a := range ci.Common().Args {
+			for _, kv := range kvs {
+				if a == kv {
+					sel = append(sel, ci)
+				}
+			}
+		}
+	}
+	if len(sel) == 0 {
+		b.addP(props, core.Discharged, key, c.FuncPos(fn), "no scalar codec is selected from baseKindOf")
+		return
+	}
+	bad := ""
+	for _, st := range sel {
+		reach := reachableFrom(st.Block(), nil)
+		have := map[string]bool{}
+		for blk := range reach {
+			for _, in := range blk.Instrs {
+				if ci, ok := in.(ssa.CallInstruction); ok {
+					if f := staticCallee(ci.Common()); f != nil {
+						have[f.Name()] = true
+					}
+				}
+			}
+		}
+		if !(have["pointerSizeFuncOf"] && have["pointerEncodeFuncOf"] && have["pointerDecodeFuncOf"]) {
+			bad = c.InstrPos(st)
+		}
+	}
+	if bad != "" {
+		b.addP(props, core.Violation, key, bad, "structCodecOf selects a scalar fixed-width codec from baseKindOf(f.Type), which looks through pointers, and never wraps it in the pointer codec: for a field such as A *uint32 `fixed32` Marshal writes the bits of the pointer and Unmarshal stores the decoded integer into the pointer itself")
+	} else {
+		b.addP(props, core.Discharged, key, c.InstrPos(sel[0]), fmt.Sprintf("%d scalar codec selection(s) from baseKindOf, each followed by the pointer wrapping", len(sel)))
+	}
 }
 
 func popcount(x uint32) int {
@@ -785,4 +888,172 @@ func dependsOnThroughLocals(v ssa.Value, target ssa.Value, fn *ssa.Function) boo
 		}
 		return false
 	})
+}
+
+// R-TAGUSE — the wire type of a protobuf struct tag selects the codec for every field shape it
+// applies to.
+func init() {
+	Register(&Rule{
+		ID:    "R-TAGUSE",
+		Doc:   "proto.fixedCodecOf maps (Fixed32, uint32|int32|float32) and (Fixed64, uint64|int64|float64) to the 4- and 8-byte codecs (joint dataflow of the possible wire types and kinds to each returned codec); structCodecOf consults it for the field's base kind and for the element kind of a repeated field; the repeated-field compiler is only reached when the field's own kind is Slice",
+		Props: []string{"C12", "C03"},
+		Min:   map[string]int{"C12": 8, "C03": 8},
+		Run:   runTagUse,
+	})
+}
+
+func protoConst(c *core.Ctx, name string) (int64, bool) {
+	pp := c.Pkg("proto")
+	if pp == nil {
+		return 0, false
+	}
+	k, _ := pp.Types.Scope().Lookup(name).(*types.Const)
+	if k == nil {
+		return 0, false
+	}
+	v, ok := constantUint(k)
+	return int64(v), ok
+}
+
+func runTagUse(c *core.Ctx) []core.Obligation {
+	b := newOb(c, "R-TAGUSE")
+	props := []string{"C12", "C03"}
+	fx32, ok1 := protoConst(c, "Fixed32")
+	fx64, ok2 := protoConst(c, "Fixed64")
+	fn := c.Lookup("proto.fixedCodecOf")
+	if fn == nil || !ok1 || !ok2 {
+		b.addP(props, core.Undecided, "taguse:table", "-", "proto.fixedCodecOf or the Fixed32/Fixed64 constants not found")
+	} else {
+		var kindP, wireP *ssa.Parameter
+		for _, p := range fn.Params {
+			if isKindValue(p) {
+				kindP = p
+			} else if strings.HasSuffix(typeShort(p.Type()), "WireType") {
+				wireP = p
+			}
+		}
+		covered := map[[2]int64]string{}
+		if kindP != nil && wireP != nil {
+			kf := kindFlow(fn, kindP)
+			wf := constFlow(fn, wireP, []int64{fx32, fx64})
+			for _, r := range returnsOf(fn) {
+				if len(r.Results) != 1 {
+					continue
+				}
+				g, ok := r.Results[0].(*ssa.Global)
+				if !ok {
+					continue
+				}
+				ks, ws := kf[r.Block()], wf[r.Block()]
+				for wi, w := range []int64{fx32, fx64} {
+					if ws&(1<<uint(wi)) == 0 || popcount(ws) != 1 {
+						continue
+					}
+					for k := int64(0); k < 27; k++ {
+						if ks&(1<<uint(k)) != 0 && popcount(uint32(ks)) <= 4 {
+							covered[[2]int64{w, k}] = g.Name()
+						}
+					}
+				}
+			}
+		}
+		for _, want := range []struct {
+			wire  int64
+			wname string
+			kind  int64
+			codec string
+		}{
+			{fx32, "fixed32", 10, "fixed32Codec"}, {fx32, "fixed32", 5, "fixed32Codec"}, {fx32, "fixed32", 13, "float32Codec"},
+			{fx64, "fixed64", 11, "fixed64Codec"}, {fx64, "fixed64", 6, "fixed64Codec"}, {fx64, "fixed64", 14, "float64Codec"},
+		} {
+			key := fmt.Sprintf("taguse:table:%s:%s", want.wname, kindNames[want.kind])
+			got := covered[[2]int64{want.wire, want.kind}]
+			switch {
+			case got == want.codec:
+				b.addP(props, core.Discharged, key, c.FuncPos(fn), "selects "+got)
+			case got == "":
+				b.addP(props, core.Violation, key, c.FuncPos(fn), fmt.Sprintf("a %s tag on a field of kind %s selects no fixed-width codec: the field silently falls back to the default (varint) encoding, which a standard decoder rejects for a %s field", want.wname, kindNames[want.kind], want.wname))
+			default:
+				b.addP(props, core.Violation, key, c.FuncPos(fn), fmt.Sprintf("a %s tag on a field of kind %s selects %s, expected %s", want.wname, kindNames[want.kind], got, want.codec))
+			}
+		}
+	}
+	sc := c.Lookup("proto.structCodecOf")
+	if sc == nil {
+		b.addP(props, core.Undecided, "taguse:consulted", "-", "proto.structCodecOf not found")
+		return b.out
+	}
+	scalar, elem := false, false
+	var sliceCalls []ssa.CallInstruction
+	for _, ci := range callsIn(sc) {
+		f := staticCallee(ci.Common())
+		if f == nil {
+			continue
+		}
+		switch f.Name() {
+		case "fixedCodecOf":
+			if len(ci.Common().Args) == 2 {
+				for _, o := range origins(ci.Common().Args[0]) {
+					call, ok := o.(*ssa.Call)
+					if !ok {
+						continue
+					}
+					if g := staticCallee(call.Common()); g != nil && g.Name() == "baseKindOf" {
+						scalar = true
+					}
+					if call.Common().IsInvoke() && call.Common().Method.Name() == "Kind" {
+						// elem.Kind() where elem = f.Type.Elem()
+						for _, o2 := range origins(call.Common().Value) {
+							if c2, ok := o2.(*ssa.Call); ok && c2.Common().IsInvoke() && c2.Common().Method.Name() == "Elem" {
+								elem = true
+							}
+						}
+					}
+				}
+			}
+		case "sliceCodecOf":
+			sliceCalls = append(sliceCalls, ci)
+		}
+	}
+	if scalar {
+		b.addP(props, core.Discharged, "taguse:consulted:scalar", c.FuncPos(sc), "the tag's wire type selects the codec of scalar fields")
+	} else {
+		b.addP(props, core.Violation, "taguse:consulted:scalar", c.FuncPos(sc), "structCodecOf does not consult the tag's wire type for scalar fields: fixed32/fixed64 tags are ignored")
+	}
+	if elem {
+		b.addP(props, core.Discharged, "taguse:consulted:repeated", c.FuncPos(sc), "the tag's wire type selects the element codec of repeated fields")
+	} else {
+		b.addP(props, core.Violation, "taguse:consulted:repeated", c.FuncPos(sc), "structCodecOf does not consult the tag's wire type for the elements of a repeated field: []uint32 tagged fixed32 is written with varint elements, which a standard decoder rejects")
+	}
+	// the repeated-field compiler is reached only for fields whose own kind is Slice
+	for i, ci := range sliceCalls {
+		key := "taguse:slice-own-kind"
+		if i > 0 {
+			key = fmt.Sprintf("%s#%d", key, i+1)
+		}
+		own := false
+		for _, blk := range sc.Blocks {
+			for _, in := range blk.Instrs {
+				call, ok := in.(*ssa.Call)
+				if !ok || !call.Common().IsInvoke() || call.Common().Method.Name() != "Kind" {
+					continue
+				}
+				if f, ok := fieldOfLoad(call.Common().Value); !ok || !strings.HasSuffix(f, "StructField.Type") {
+					continue
+				}
+				if set := kindFlow(sc, call)[ci.Block()]; set == 1<<23 {
+					own = true
+				}
+			}
+		}
+		if own {
+			b.addP(props, core.Discharged, key, c.InstrPos(ci), "sliceCodecOf is reached only where f.Type.Kind() == Slice")
+		} else {
+			b.addP(props, core.Violation, key, c.InstrPos(ci), "sliceCodecOf is reached on the strength of the base kind alone: a field of type *[]T (a pointer) is compiled as a repeated field and its memory read as a slice header (SIGSEGV)")
+		}
+	}
+	if len(sliceCalls) == 0 {
+		b.addP(props, core.Undecided, "taguse:slice-own-kind", c.FuncPos(sc), "no call of sliceCodecOf found in structCodecOf")
+	}
+	return b.out
 }
